@@ -246,4 +246,32 @@ theorem single_collision_extraction (sha256 : Bytes → Bytes) (s : Str) (d : By
           exact ⟨cbor, rfl, by rw [h2, h0.2]⟩
   exact checksum_collision sha256 d d0 cs hd hd0
 
+/-! ## unique decodability (corollaries of the round trips) -/
+
+/-- bc32 text encoding is injective: two payloads with the same bc32 text are equal -/
+theorem bc32_encode_injective (d₁ d₂ : Bytes) (s : Str) (h₁ : bc32encode d₁ = some s) (h₂ : bc32encode d₂ = some s) :
+    d₁ = d₂ := by
+  have a := bc32_roundtrip d₁ s h₁
+  rw [bc32_roundtrip d₂ s h₂] at a
+  exact (Option.some.inj a).symm
+
+/-- single-part UR text is injective in the payload (with or without the checksum field) -/
+theorem single_encode_injective (sha256 : Bytes → Bytes) (hh : ∀ b, (sha256 b).length = 32) (d₁ d₂ : Bytes)
+    (h₁ : d₁.length < 2 ^ 32) (h₂ : d₂.length < 2 ^ 32) (c : Bool) (s : Str)
+    (e₁ : singleEncode sha256 d₁ c = some s) (e₂ : singleEncode sha256 d₂ c = some s) : d₁ = d₂ := by
+  obtain ⟨t₁, a₁, p₁⟩ := single_roundtrip sha256 hh d₁ h₁ c
+  obtain ⟨t₂, a₂, p₂⟩ := single_roundtrip sha256 hh d₂ h₂ c
+  rw [e₁] at a₁; rw [e₂] at a₂; cases a₁; cases a₂
+  rw [p₂] at p₁; exact (Option.some.inj p₁).symm
+
+/-- multi-part UR: the list of parts determines the payload -/
+theorem multi_encode_injective (sha256 : Bytes → Bytes) (hh : ∀ b, (sha256 b).length = 32) (d₁ d₂ : Bytes)
+    (h₁ : d₁.length < 2 ^ 32) (h₂ : d₂.length < 2 ^ 32) (m₁ m₂ : Nat) (hm₁ : 1 ≤ m₁) (hm₂ : 1 ≤ m₂) (a₁ a₂ : Bool)
+    (parts : List Str)
+    (e₁ : multiEncode sha256 d₁ m₁ a₁ = some parts) (e₂ : multiEncode sha256 d₂ m₂ a₂ = some parts) : d₁ = d₂ := by
+  obtain ⟨q₁, _, _, _, x₁, p₁⟩ := multi_roundtrip sha256 hh d₁ h₁ m₁ hm₁ a₁
+  obtain ⟨q₂, _, _, _, x₂, p₂⟩ := multi_roundtrip sha256 hh d₂ h₂ m₂ hm₂ a₂
+  rw [e₁] at x₁; rw [e₂] at x₂; cases x₁; cases x₂
+  rw [p₂] at p₁
+  exact (Prod.mk.inj (Option.some.inj p₁)).1.symm
 end Buidl.Props.C20
